@@ -93,6 +93,12 @@ func Hash(uri string) (func() hash.Hash, error) {
 
 // EncryptRaw produces the octets of CipherValue for a block algorithm (IV/nonce prefix included).
 func EncryptRaw(alg string, key, plaintext []byte, rnd io.Reader) ([]byte, error) {
+	return encryptRaw(alg, key, plaintext, rnd, 0)
+}
+
+// encryptRaw with extraBlocks > 0 writes a CBC padding that is longer than one block (its last byte still counts the
+// padding bytes): not a padding the recommendation allows (section 5.2: at most one block), used as a hostile input.
+func encryptRaw(alg string, key, plaintext []byte, rnd io.Reader, extraBlocks int) ([]byte, error) {
 	blk, err := newBlock(alg, key)
 	if err != nil {
 		return nil, err
@@ -109,7 +115,10 @@ func EncryptRaw(alg string, key, plaintext []byte, rnd io.Reader) ([]byte, error
 		return g.Seal(nonce, nonce, plaintext, nil), nil
 	}
 	bs := blk.BlockSize()
-	pad := bs - len(plaintext)%bs
+	pad := bs - len(plaintext)%bs + extraBlocks*bs
+	if pad > 255 {
+		return nil, errors.New("refenc: padding does not fit its length byte")
+	}
 	buf := make([]byte, len(plaintext)+pad)
 	copy(buf, plaintext)
 	if pad > 1 {
@@ -224,6 +233,11 @@ func KeyElement(transport, digest string, wrapped []byte, cert *x509.Certificate
 // Encrypt builds a complete EncryptedData. If cert is nil the key is used directly, otherwise a fresh CEK is drawn
 // from rnd and wrapped to cert's RSA key. It returns the element and the CEK used.
 func Encrypt(alg, transport, digest string, cert *x509.Certificate, directKey, plaintext []byte, rnd io.Reader, embedCert bool) (*etree.Element, []byte, error) {
+	return EncryptOverlong(alg, transport, digest, cert, directKey, plaintext, rnd, embedCert, 0)
+}
+
+// EncryptOverlong is Encrypt with extraBlocks whole blocks of additional CBC padding (0: a regular EncryptedData).
+func EncryptOverlong(alg, transport, digest string, cert *x509.Certificate, directKey, plaintext []byte, rnd io.Reader, embedCert bool, extraBlocks int) (*etree.Element, []byte, error) {
 	cek := directKey
 	var ki *etree.Element
 	if cert != nil {
@@ -245,7 +259,7 @@ func Encrypt(alg, transport, digest string, cert *x509.Certificate, directKey, p
 		}
 		ki = KeyElement(transport, digest, w, c)
 	}
-	cv, err := EncryptRaw(alg, cek, plaintext, rnd)
+	cv, err := encryptRaw(alg, cek, plaintext, rnd, extraBlocks)
 	if err != nil {
 		return nil, nil, err
 	}
